@@ -52,7 +52,9 @@ def _k(p):
 #   gamma,k  functions of the full parameter dict (default: p['gamma'], geometry - 1)
 #   flux     None (pure hydrodynamic problem, lam0 = 0) or dict(alpha=fn, beta=fn, lam0=fn)
 #   split    True when the documentation makes hydrodynamic part and flux divergence vanish separately
-#   r        (lo, hi) of the sampled positions
+#   r        (lo, hi) of the sampled positions, or a function (rng, params, t) -> list of positions
+#            (e.g. to stay away from a reported discontinuity)
+#   valid    optional predicate (params, r, t) -> bool: points where it is False are skipped
 _R = (0.5, 3.0)
 _RT = (0.5, 3.0)
 SPEC = {
@@ -221,7 +223,8 @@ def cog(n, eq=None, spec=None, tol=None):
         tt = sp.get('t', (0.2, 2.0))
         t = tt(rng, full(p)) if callable(tt) else rng.uniform(*tt)
         rr = sp.get('r', _R)
-        return dict(cls=cls, params=p, pts=sorted(rng.uniform(*rr) for _ in range(3)), t=t)
+        pts = sorted(rr(rng, full(p), t)) if callable(rr) else sorted(rng.uniform(*rr) for _ in range(3))
+        return dict(cls=cls, params=p, pts=pts, t=t)
 
     def wanted(e):
         if eq is None:
@@ -248,6 +251,8 @@ def cog(n, eq=None, spec=None, tol=None):
             return None
         fp = full(case['params'])
         for r in case['pts']:
+            if 'valid' in sp and not sp['valid'](fp, r, case['t']):
+                continue
             res = at(solver, fp, r, case['t'], 1.0)
             if res is None:
                 continue
